@@ -56,11 +56,14 @@ impl<'a> EFIMemoryAreaIter<'a> {
 //@end
 
 // `impl Iterator for EFIMemoryAreaIter` (R4)
-//@extract multiboot2/src/memory_map.rs :: impl<'a> Iterator for EFIMemoryAreaIter<'a> :: fn next
-//@  ret r
-//@  rules R8
-//@  prologue proof { assert(size_of::<EFIMemoryDesc>() == 40 && align_of::<EFIMemoryDesc>() == 8); lemma_efi_index(old(self).i as int, old(self).entries as int, old(self).mmap_tag.desc_size as int); }
-//@  spec:
+//@extractall multiboot2/src/memory_map.rs :: impl<'a> Iterator for EFIMemoryAreaIter<'a>
+//@  type Item: skip
+//@  fn *: rules R2, R8
+//@  fn *: sigrewrite /Self::Item/ => /&'a EFIMemoryDesc/ x*
+//@  fn next: ret r
+//@  fn next: rules R8
+//@  fn next: prologue proof { assert(size_of::<EFIMemoryDesc>() == 40 && align_of::<EFIMemoryDesc>() == 8); lemma_efi_index(old(self).i as int, old(self).entries as int, old(self).mmap_tag.desc_size as int); }
+//@  fn next: spec:
 //@    requires old(self).wf(),
 //@    ensures
 //@        final(self).wf(), final(self).mmap_tag == old(self).mmap_tag, final(self).entries == old(self).entries,
@@ -78,9 +81,10 @@ impl<'a> EFIMemoryAreaIter<'a> {
 //@end
 
 // `impl ExactSizeIterator for EFIMemoryAreaIter` (R4)
-//@extract multiboot2/src/memory_map.rs :: impl ExactSizeIterator for EFIMemoryAreaIter<'_> :: fn len
-//@  ret r
-//@  spec:
+//@extractall multiboot2/src/memory_map.rs :: impl ExactSizeIterator for EFIMemoryAreaIter<'_>
+//@  fn *: rules R2, R8
+//@  fn len: ret r
+//@  fn len: spec:
 //@    requires self.wf(),
 //@    ensures r == self.entries - self.i,   // C18: remaining length = items still to come
 //@end
